@@ -20,14 +20,15 @@ AbsI(x) == IF x < 0 THEN -x ELSE x
 Norm(q0) == LET q == IF q0[2] < 0 THEN <<-q0[1], -q0[2]>> ELSE q0
                g == GCD(AbsI(q[1]), q[2]) IN IF q[1] = 0 THEN <<0, 1>> ELSE <<q[1] \div g, q[2] \div g>>
 R(n) == <<n, 1>>
-Add(p, q) == Norm(<<p[1] * q[2] + q[1] * p[2], p[2] * q[2]>>)
+\* common denominator = least common multiple (all denominators are powers of two in the dyadic universe)
+Add(p, q) == LET g == GCD(p[2], q[2])  L == (p[2] \div g) * q[2] IN Norm(<<p[1] * (L \div p[2]) + q[1] * (L \div q[2]), L>>)
 Sub(p, q) == Add(p, <<-q[1], q[2]>>)
 Mul(p, q) == LET a == Norm(<<p[1], q[2]>>)  b == Norm(<<q[1], p[2]>>) IN <<a[1] * b[1], a[2] * b[2]>>     \* cross-reduced first
 MulI(p, n) == Mul(p, R(n))
 DivI(p, n) == IF n < 0 THEN Mul(<<-p[1], p[2]>>, <<1, -n>>) ELSE Mul(p, <<1, n>>)
 RECURSIVE SumR(_)
 SumR(s) == IF s = <<>> THEN R(0) ELSE Add(Head(s), SumR(Tail(s)))
-Fits(q) == AbsI(q[1]) < 30000 /\ q[2] < 30000                 \* magnitude budget of 32-bit integers
+Fits(q) == AbsI(q[1]) < 4096 /\ q[2] < 4096                 \* magnitude budget of 32-bit integers
 
 \* ---------------- gradients of one condition (as rationals), at state st
 U(st, x) == Add(MulI(st.a, x), st.b)
